@@ -9,6 +9,7 @@ from ..absval import AbsRaise, Closure, Env, Interp, Obj, Stub
 from ..astq import arg, inside, is_name, loc, names_in, stmt_of
 from ..model import AnalysisError, Func, head, norm
 from . import engine as E
+from . import roles
 
 
 def _noop(*a, **k):
@@ -152,7 +153,7 @@ class StaleHarness:
         self.m, self.rr = m, rr
         self.stale_f = rr.stale
         self.CallC, self.LitC = m.one_class("Call", "T1"), m.one_class("Literal", "T1")
-        self.RegC, self.RegValC = m.one_class("Registry", "T1"), m.one_class("RegistryValue", "T1")
+        self.RegC, self.RegValC = m.one_class("Registry", "T1"), roles.registry_value(m)
         self.engine_names, self.pruner_names = set(), set()
         for c in self.stale_f.own_calls():
             fs = m.callee_funcs(self.stale_f, c)
@@ -223,6 +224,41 @@ class StaleHarness:
 
 
 # ------------------------------------------------------------------------------------------------ T2
+def order_only_function(m, g, depth=0):
+    """Does repo function g use its parameters only through order operations (max/min, comparisons, None tests, truthiness,
+    iteration, passing on to such functions)?  Name-independent replacement for an allow-list entry 'safe_max'."""
+    if depth > 2 or isinstance(g.node, ast.Lambda):
+        return False
+    params = set(g.params) | ({g.vararg} if g.vararg else set())
+    derived = set(params)
+    for _ in range(3):
+        for f_ in [g] + g.all_nested():
+            for n in f_.own_nodes():
+                if isinstance(n, ast.comprehension) and names_in(n.iter) & derived:
+                    derived |= names_in(n.target)
+                if isinstance(n, ast.Assign) and names_in(n.value) & derived:
+                    derived |= {t.id for t in n.targets if isinstance(t, ast.Name)}
+    for f_ in [g] + g.all_nested():
+        for node in f_.own_nodes():
+            if not (isinstance(node, ast.Name) and node.id in derived and isinstance(node.ctx, ast.Load)):
+                continue
+            p = f_.module.parent.get(node)
+            if isinstance(p, ast.Starred):
+                p = f_.module.parent.get(p)
+            if isinstance(p, ast.Subscript) and p.value is node and isinstance(p.slice, ast.Constant) and isinstance(p.slice.value, int):
+                continue  # selecting one of the values handed in (e.g. args[0])
+            if isinstance(p, (ast.BinOp, ast.Attribute, ast.Subscript, ast.JoinedStr, ast.FormattedValue)):
+                return False
+            if isinstance(p, ast.Compare) and not all(isinstance(o, (ast.Gt, ast.Lt, ast.GtE, ast.LtE, ast.Is, ast.IsNot)) for o in p.ops):
+                return False
+            if isinstance(p, ast.Call) and node is not p.func:
+                ext = {x.split(".")[-1] for x in (o[1] for o in m.callee_origins(f_, p) if o[0] == "ext")}
+                callees = m.callee_funcs(f_, p)
+                if not (ext & {"max", "min", "filter", "iter", "list", "tuple", "len", "sorted"} or (callees and all(order_only_function(m, c, depth + 1) for c in callees))):
+                    return False
+    return True
+
+
 def rule_order_only(ctx, rid, rr):
     """Timestamps inside the stale check are used only through the normaliser, max/safe_max, comparisons, None tests
     and truthiness - never arithmetic, formatting or attribute access."""
@@ -232,7 +268,8 @@ def rule_order_only(ctx, rid, rr):
         time_vars = set()
         for nm, bs in f.bindings.items():
             for kind, e, _p in bs:
-                if kind == "assign" and e is not None and ("modified_time" in norm(e) or "fresh_time" in norm(e) or "safe_max" in norm(e)):
+                if kind == "assign" and e is not None and ("modified_time" in norm(e) or "fresh_time" in norm(e) or (
+                        isinstance(e, ast.Call) and (fs_ := m.callee_funcs(f, e)) and all(order_only_function(m, g_) for g_ in fs_))):
                     time_vars.add(nm)
         time_vars |= {p for p in f.params if "time" in p}
         for node in f.own_nodes():
@@ -245,8 +282,10 @@ def rule_order_only(ctx, rid, rr):
                 if isinstance(p, (ast.BinOp, ast.Attribute, ast.Subscript, ast.JoinedStr, ast.FormattedValue)):
                     ok = False
                 if isinstance(p, ast.Call) and node in p.args:
-                    tg = {g.name for g in m.callee_funcs(f, p)} | {x.split(".")[-1] for x in (o[1] for o in m.callee_origins(f, p) if o[0] == "ext")}
-                    ok = bool(tg & {"safe_max", "max", "_to_naive_utc_time"})
+                    callees = m.callee_funcs(f, p)
+                    ext = {x.split(".")[-1] for x in (o[1] for o in m.callee_origins(f, p) if o[0] == "ext")}
+                    norm_f = m.one_func("_to_naive_utc_time", "NORMALISER")
+                    ok = bool(ext & {"max", "min"}) or (bool(callees) and all(g_ is norm_f or order_only_function(m, g_) for g_ in callees))
                 ctx.ob(rid, f"{f.short}/{node.id}", ok, loc(f, node),
                        "timestamp used through order operations only" if ok else
                        "a timestamp is used by something other than max / comparison / None test: the decision no longer "
@@ -462,7 +501,9 @@ def rule_ancestor_closure(ctx, rid, rr):
 def rule_stale_check_sees_stored_nodes(ctx, rid, rr):
     m = ctx.model
     f = rr.stale
-    pcs = [c for c in f.own_calls() if any(g.name == "prune_source_literals" for g in m.callee_funcs(f, c))]
+    from .prunerules import litprune_role
+    ps = litprune_role(m, rr)
+    pcs = [c for c in f.own_calls() if ps in m.callee_funcs(f, c)]
     ok = len(pcs) == 1
     ctx.ob(rid, f"{f.short}/prunes-literals-once", ok, loc(f), "one literal-pruning step before the stale check")
     for c in pcs:
@@ -480,7 +521,7 @@ def rule_stale_check_sees_stored_nodes(ctx, rid, rr):
     # nothing else transforms the examined plan before the engine call
     for c in f.own_calls():
         fs = m.callee_funcs(f, c)
-        other_prune = any(g.module.name.endswith("pruning") and g.name != "prune_source_literals" for g in fs)
+        other_prune = any(g.module.name.endswith("pruning") and g is not ps for g in fs)
         mut = isinstance(c.func, ast.Attribute) and c.func.attr in ("remove_node", "remove_nodes_from", "remove_edge", "remove_edges_from", "subgraph")
         if other_prune or mut:
             ctx.ob(rid, f"{f.short}/examines-whole-plan", False, loc(f, c),
@@ -491,11 +532,9 @@ def rule_stale_check_sees_stored_nodes(ctx, rid, rr):
     ok = len(rets) == 1 and isinstance(rets[0].value, ast.SetComp)
     ctx.ob(rid, f"{f.short}/returns-stale-set", ok, loc(f), "returns the set of nodes marked stale")
     # pruner: only Literal nodes without predecessors, optional predicate narrows
-    ps = m.one_func("prune_source_literals", "LITPRUNE")
-    lcs = [n for n in ps.own_nodes() if isinstance(n, ast.ListComp)]
-    ok = bool(lcs) and any("is Literal" in norm(c) for lc in lcs for g in lc.generators for c in g.ifs)
-    ctx.ob(rid, f"{ps.short}/literals-only", ok, loc(ps), "only exact Literal nodes are pruned as sources" if ok else
-           "source pruning is not restricted to Literal nodes: calls can disappear before execution")
+    # what the pruner removes (only predecessor-free Literal nodes the predicate accepts) is decided by evaluation (prunerules)
+    from .prunerules import rule_pruning_evaluated
+    rule_pruning_evaluated(ctx, rid, rr)
 
 
 def rule_apply_examines_whole_plan(ctx, rid, rr):
@@ -532,7 +571,7 @@ def rule_stale_totals(ctx, rid, rr, stale_tot):
     m = ctx.model
     stale_f = rr.stale
     CallC, LitC = m.one_class("Call", "P4"), m.one_class("Literal", "P4")
-    RegC, RegValC = m.one_class("Registry", "P4"), m.one_class("RegistryValue", "P4")
+    RegC, RegValC = m.one_class("Registry", "P4"), roles.registry_value(m)
     engine_names, pruner_names = set(), set()
     for c in stale_f.own_calls():
         fs = m.callee_funcs(stale_f, c)
